@@ -838,13 +838,13 @@ def parse_tree_to_objgraph(
         return_value_current = None
 
         # enter recursive visit of attributes only, if the class of the
-        # object being processed is a meta class of the current meta model
-        if model_obj.__class__.__name__ in metamodel:
-            if hasattr(model_obj, "_tx_fqn"):
-                current_metaclass_of_obj = metamodel[model_obj._tx_fqn]
-            else:
-                # fallback (not used - unsure if this case is required...):
-                current_metaclass_of_obj = metamodel[model_obj.__class__.__name__]
+        # object being processed is a meta class of the current meta model.
+        # The fully qualified name is used: the short name of a class of a
+        # grammar that is imported transitively is not visible from the main
+        # grammar's namespace.
+        cls_name = getattr(model_obj, "_tx_fqn", model_obj.__class__.__name__)
+        if cls_name in metamodel:
+            current_metaclass_of_obj = metamodel[cls_name]
             assert current_metaclass_of_obj is not None
 
             for metaattr in current_metaclass_of_obj._tx_attrs.values():
